@@ -89,12 +89,17 @@ impl Step {
     /// Perform the history (results ignored, panics reported), then the checked operation.
     pub fn execute(&self) -> LegReport {
         let mut pre = Vec::new();
+        let mut hist_log = Vec::new();
         for op in &self.history {
-            if let Err(msg) = history::perform(op) {
-                pre.push(viol("PANIC", format!("history operation {:?} panicked: {msg}", op)));
+            match history::perform(op) {
+                Ok(digest) => hist_log.push(digest),
+                Err(msg) => pre.push(viol("PANIC", format!("history operation {:?} panicked: {msg}", op))),
             }
         }
         let mut rep = self.case.execute();
+        for d in hist_log {
+            rep.log.u64(d);
+        }
         if !self.history.is_empty() {
             rep.probes.hit("history_before_checked_operation");
             rep.probes.add("history_operations", self.history.len() as u64);
@@ -624,6 +629,9 @@ const REQUIRED_PROBES: &[&str] = &[
     "json_host_tuple",
     "json_host_stream",
     "json_api_via_value",
+    "json_reader_behind_bufreader",
+    "history_before_checked_operation",
+    "de_in_place_agrees",
     "rt_serde_value_deserializers_ok",
     "toml_rt_ok",
     "toml_accept_valid",
@@ -826,7 +834,7 @@ fn write_evidence(
             "host f64 addition is IEEE-754 round-to-nearest-even (self-checked at start-up on tie cases)",
             "std f64 Display/LowerExp/UpperExp and str::parse::<f64> define the reference numerals (the property is stated in those terms; round trip self-checked)",
             "serde_json with float_roundtrip reads and writes f64 bit-exactly (self-checked on every JSON write leg)",
-            "TwoFloat is #[repr(C)] {hi, lo}: values under test are built by transmute so that construction does not depend on code under test (self-checked)",
+            if layout_is_hi_lo() { "TwoFloat is #[repr(C)] {hi, lo} (checked at start-up): values under test are built by bit copy so that construction does not depend on code under test" } else { "TwoFloat's layout is not {hi, lo}: values under test were built through the crate's own TryFrom (fallback)" },
             "a clean batch is evidence over the sampled runs, not a proof over all 2^128 pairs"
         ],
         "wall_s": wall_s,
@@ -860,6 +868,8 @@ struct Args {
     summary_only: Option<PathBuf>,
     /// summaries of secondary configurations to embed in the evidence
     merge_summaries: Vec<PathBuf>,
+    /// run the quick tier's thin validity-gate lattice even with an explicit `--runs` budget
+    lattice: bool,
     /// `--replay-sequence <base> <kind> <from> <to>`: run that window on one thread and report
     replay_sequence: Option<SequenceSpec>,
 }
@@ -884,6 +894,7 @@ fn parse_args() -> Result<Args, String> {
         config_label: None,
         summary_only: None,
         merge_summaries: Vec::new(),
+        lattice: false,
         replay_sequence: None,
     };
     let mut it = std::env::args().skip(1);
@@ -903,6 +914,7 @@ fn parse_args() -> Result<Args, String> {
             "selftest" | "--selftest" => a.selftest = true,
             "--digest-only" => a.digest_only = true,
             "--no-respawn" => a.no_respawn = true,
+            "--lattice" => a.lattice = true,
             "--config-label" => a.config_label = Some(val("--config-label")?),
             "--summary-only" => a.summary_only = Some(PathBuf::from(val("--summary-only")?)),
             "--merge-summary" => a.merge_summaries.push(PathBuf::from(val("--merge-summary")?)),
@@ -1164,7 +1176,7 @@ fn main() {
         }
     }
     // quick: a thin validity-gate lattice over every biased exponent of the high word
-    if failing.is_none() && a.tier == "quick" && a.sweep.is_none() && a.runs.is_none() {
+    if failing.is_none() && (a.lattice || (a.tier == "quick" && a.sweep.is_none() && a.runs.is_none())) {
         let b = run_batch_kind(a.seed, 2048, a.workers, &known, Kind::ThinLattice);
         let ff = b.first_fail.clone();
         total.merge(b);
